@@ -465,6 +465,7 @@ func cmdC04Record(args []string) {
 	fmt.Sscan(args[1], &n)
 	var res hlib.Result
 	files := []string{}
+	hung := []string{}
 	events := 0
 	for i := 0; i < n; i++ {
 		rng := rand.New(rand.NewSource(hlib.Seed()*100003 + int64(i)))
@@ -481,11 +482,13 @@ func cmdC04Record(args []string) {
 		events += len(evs)
 		res.Evaluations++
 		if hang != "" {
+			hung = append(hung, path)
 			res.Fail("c04/no-outcome", hang, map[string]interface{}{"trace": path, "kind": p.cfg.Kind})
 		}
 	}
 	res.Distinct = n
 	res.SetExtra("traces", files)
+	res.SetExtra("hung", hung)
 	res.SetExtra("events", events)
 	res.Emit()
 }
